@@ -555,7 +555,7 @@ impl Database {
                                 col_idx,
                                 col_def.data_type(),
                             )?;
-                            if value.is_null() {
+                            if value.is_null() && is_unique {
                                 all_non_null = false;
                                 key_buffer.truncate(key_start as usize);
                                 break;
